@@ -310,7 +310,10 @@ class FieldValueComponentKeyValueBase(FieldValueComponentBase):
         cls._parse_value(parser)
         parsed_value = parser['value']
         if cls.get_canonical_name():
-            parsed_value = cls(parsed_value)
+            try:
+                parsed_value = cls(parsed_value)
+            except (TypeError, ValueError) as e:  # refused by the component's converter / validator
+                six.raise_from(InvalidValue(parsed_value, cls, 'value'), e)
 
         return parsed_value, parser.parsed_length
 
@@ -754,7 +757,10 @@ class FieldValueMultiple(FieldValueBase):
         cls._parse_basic_params(attr_to_component_name_dict, attr_fields_dict_basic, components, params)
         cls._parse_extensions(attr_to_component_name_dict, extension, components, params)
 
-        return cls(**params), len(parsable)
+        try:
+            return cls(**params), len(parsable)
+        except (TypeError, ValueError, OverflowError) as e:  # a component refused by its converter / validator
+            six.raise_from(InvalidValue(bytes(parsable).decode('ascii', 'replace'), cls, 'value'), e)
 
     def compose(self):
         composer = ComposerText()
